@@ -784,10 +784,14 @@ fn replay(args: &[String], out: &mut Out) {
                 && obs["pairs"] == e["pairs"]
                 && obs["heap"] == e["heap"];
             let out_same = op["op"] != "maybe_restore" || obs["out"] == op["out"];
-            if !same || !out_same {
-                let kind = if same { "outcome" } else { "step" };
+            // read-back of the created atom (bytes) where the model gives it
+            let rb_known = e.get("rb").map(|x| x != &json!([-1])).unwrap_or(false) && obs.get("rb").is_some();
+            let rb_same = !rb_known || obs["rb"] == e["rb"];
+            obs["rb_differs"] = json!(!rb_same);
+            if !same || !out_same || !rb_same {
+                let kind = if same && rb_same { "outcome" } else { "step" };
                 out.emit(&json!({"kind": kind, "case": ci, "profile": c["profile"], "lim": c["lim"], "step": i + 1, "op": op,
-                    "exp": {"st": e["st"], "ret": e["ret"], "atoms": e["atoms"], "pairs": e["pairs"], "heap": e["heap"]},
+                    "exp": {"st": e["st"], "ret": e["ret"], "atoms": e["atoms"], "pairs": e["pairs"], "heap": e["heap"], "rb": e["rb"]},
                     "obs": obs, "src": src,
                     "before": {"atoms": before.0 as i64 - off_a as i64, "pairs": before.1 as i64 - off_p as i64, "heap": before.2},
                     "prefix": ops[..i].iter().map(|x| x["op"].clone()).collect::<Vec<_>>()}));
